@@ -150,7 +150,8 @@ def rmHop (extra : List OptRR) : List OptRR :=
 /-! ## Environment, requests, caches -/
 
 structure Env where
-  /-- `geoip.Interface.Data`. -/
+  /-- `geoip.Interface.Data` as a function of the address; used by `locate` only (the theorems
+  take the locations of a request as they come). -/
   data : Fam → Nat → Option Loc
   /-- `geoip.Interface.SubnetByLocation`; `none` is an error. -/
   subnet : Loc → Fam → Option Pfx
@@ -164,6 +165,12 @@ structure Req where
   qtype : Nat
   qclass : Nat
   extra : List OptRR
+  /-- `ri.Location`: what `geoIP.Data` answered for the remote address when `ratelimitmw.location`
+  asked (`none`: nil).  An input: the ECS cache only reads it, and `Data` need not be a function of
+  the address (it has a cache of its own, the databases are refreshed). -/
+  cl : Option Loc
+  /-- `ri.ECS.Location`: the same for the address of a valid ECS option (ignored without one). -/
+  el : Option Loc
 deriving DecidableEq, Repr
 
 /-- What the upstream does if consulted. -/
@@ -249,6 +256,119 @@ def putN (m : NKey → Option Item) (k : NKey) (v : Option Item) : NKey → Opti
 def putE (m : EKey → Option Item) (k : EKey) (v : Option Item) : EKey → Option Item :=
   fun k' => if k' = k then v else m k'
 
+/-! ## `geoip.File`: the subnets assigned to locations
+
+`File.Refresh` scans the networks of the ASN database (`resetLocationSubnets`) and of the country
+database (`resetCountrySubnets`), keeps per key and family the network whose length is closest to
+the desired one (`replaceSubnet`), widens nothing but lengthens networks shorter than the desired
+length (`apply…SubnetHacks`), and `SubnetByLocation` looks a location up: its own key, the top ASN
+of its country, its country, the zero prefix. -/
+
+/-- `locationKey`. -/
+structure LKey where
+  ctry : Nat
+  subdiv : Nat
+  asn : Nat
+deriving DecidableEq, Repr
+
+/-- `desiredIPv4SubnetLength`, `desiredIPv6SubnetLength`. -/
+def desired : Fam → Nat | .v4 => 24 | .v6 => 56
+
+def dist (a b : Nat) : Nat := if a ≤ b then b - a else a - b
+
+def putK {K : Type} [DecidableEq K] (m : K → Option Pfx) (k : K) (p : Pfx) : K → Option Pfx :=
+  fun k' => if k' = k then some p else m k'
+
+/-- `replaceSubnet`. -/
+def replaceSubnet {K : Type} [DecidableEq K] (m : K → Option Pfx) (k : K) (p : Pfx) (want : Nat) :
+    K → Option Pfx :=
+  match m k with
+  | none => if p.bits > want then m else putK m k p
+  | some prev => if dist prev.bits want < dist p.bits want then m else putK m k p
+
+/-- One network of a scan goes to the map of its own family. -/
+def scanStep {K : Type} [DecidableEq K] (m : Fam → K → Option Pfx) (k : K) (p : Pfx) : Fam → K → Option Pfx :=
+  fun f => if f = p.fam then replaceSubnet (m f) k p (desired f) else m f
+
+def scan {K : Type} [DecidableEq K] (m : Fam → K → Option Pfx) : List (K × Pfx) → Fam → K → Option Pfx
+  | [] => m
+  | kp :: r => scan (scanStep m kp.1 kp.2) r
+
+/-- The loop at the end of `apply…SubnetHacks`. -/
+def lengthen (f : Fam) (p : Pfx) : Pfx := if p.bits < desired f then { p with bits := desired f } else p
+
+/-- AS25159 (`applyLocationSubnetHacks`, IPv4 only): 178.176.72.0/24. -/
+def hackKey : LKey := ⟨0, 0, 25159⟩
+def hackPfx : Pfx := ⟨.v4, 2997897216, 24⟩
+
+structure GeoDB where
+  /-- countries whose location keys keep country and subdivision (RU, US, CN, IN). -/
+  special : Nat → Bool
+  /-- `countryTopASNs`. -/
+  topASN : Nat → Option Nat
+  /-- `allTopASNs`. -/
+  isTop : Nat → Bool
+  /-- networks of the ASN database with the country/subdivision of their first address. -/
+  asnNets : List (LKey × Pfx)
+  /-- networks of the country database with a country (`0` is none). -/
+  ctryNets : List (Nat × Pfx)
+
+/-- `newLocationKey`. -/
+def GeoDB.key (db : GeoDB) (asn ctry subdiv : Nat) : LKey :=
+  if db.special ctry then ⟨ctry, subdiv, asn⟩ else ⟨0, 0, asn⟩
+
+/-- `ipv4LocationSubnets` / `ipv6LocationSubnets` after a refresh.  `asnNets` holds the raw
+(asn, country, subdivision) of each network; the key is made here. -/
+def GeoDB.locMap (db : GeoDB) (f : Fam) (k : LKey) : Option Pfx :=
+  let nets := (db.asnNets.filter (fun n => db.isTop n.1.asn)).map
+    (fun n => (db.key n.1.asn n.1.ctry n.1.subdiv, n.2))
+  let m := scan (fun _ _ => none) nets
+  let m4 : LKey → Option Pfx := if f = .v4 then putK (m f) hackKey hackPfx else m f
+  (m4 k).map (lengthen f)
+
+/-- `ipv4CountrySubnets` / `ipv6CountrySubnets` after a refresh. -/
+def GeoDB.ctryMap (db : GeoDB) (f : Fam) (c : Nat) : Option Pfx :=
+  ((scan (fun _ _ => none) (db.ctryNets.filter (fun n => n.1 != 0))) f c).map (lengthen f)
+
+/-- `File.SubnetByLocation`. -/
+def GeoDB.subnetByLocation (db : GeoDB) (l : Loc) (f : Fam) : Pfx :=
+  match db.locMap f (db.key l.asn l.ctry l.subdiv) with
+  | some n => n
+  | none =>
+    match (match db.topASN l.ctry with
+           | some a => db.locMap f ⟨0, 0, a⟩
+           | none => none) with
+    | some n => n
+    | none =>
+      match db.ctryMap f l.ctry with
+      | some n => n
+      | none => zeroPfx f
+
+/-- The environment of the ECS cache when GeoIP is a `geoip.File` over `db`; `data` (the per-address
+look-up, `File.Data`) stays a parameter. -/
+def GeoDB.env (db : GeoDB) (data : Fam → Nat → Option Loc) (fake : Nat → Bool) : Env :=
+  ⟨data, fun l f => some (db.subnetByLocation l f), fake⟩
+
+/-! ## `geoip.File.Data`: the per-address look-up and its cache
+
+`Data` keeps an LRU of locations keyed by `ipToCacheKey`: the first three bytes of an IPv4 address,
+the first seven of an IPv6 address. -/
+
+/-- `ipToCacheKey`. -/
+def blockOf (f : Fam) (a : Nat) : Nat :=
+  match f with
+  | .v4 => a >>> 8
+  | .v6 => a >>> 72
+
+/-- `File.Data` for an address: the cached location of its block if there is one, else the
+database look-up, which is cached for the block. -/
+def dataCached (lookup : Fam → Nat → Loc) (cache : Fam → Nat → Option Loc) (f : Fam) (a : Nat) :
+    Loc × (Fam → Nat → Option Loc) :=
+  match cache f (blockOf f a) with
+  | some l => (l, cache)
+  | none =>
+    (lookup f a, fun f' k => if f' = f ∧ k = blockOf f a then some (lookup f a) else cache f' k)
+
 /-! ## Request information -/
 
 /-- The client's valid ECS prefix, if any (`ri.ECS`). -/
@@ -275,15 +395,25 @@ def locFromReq (cl el : Option Loc) : Loc :=
   | some c => if base.ctry = 0 then { base with ctry := c.ctry, asn := c.asn } else base
   | none => base
 
-def locOf (env : Env) (r : Req) : Loc :=
-  locFromReq (env.data r.rfam r.raddr)
+/-- `locFromReq(ri)`. -/
+def locOf (r : Req) : Loc :=
+  locFromReq r.cl
     (match clientECS r with
-     | some p => env.data p.fam p.addr
+     | some _ => r.el
      | none => none)
+
+/-- `ratelimitmw.location` when `geoIP.Data` is the function `env.data`: the request with its
+locations looked up. -/
+def locate (env : Env) (r : Req) : Req :=
+  { r with
+    cl := env.data r.rfam r.raddr
+    el := match clientECS r with
+      | some p => env.data p.fam p.addr
+      | none => none }
 
 /-- The subnet the request is mapped to (`cr.subnet`); `none` when GeoIP fails. -/
 def mapped (env : Env) (r : Req) : Option Pfx :=
-  if declined r then some (zeroPfx (ecsFamOf r)) else env.subnet (locOf env r) (ecsFamOf r)
+  if declined r then some (zeroPfx (ecsFamOf r)) else env.subnet (locOf r) (ecsFamOf r)
 
 def nkey (r : Req) (sub : Pfx) : NKey := ⟨r.host, r.qtype, r.qclass, isDO r.extra, sub.fam, declined r⟩
 def ekey (r : Req) (sub : Pfx) : EKey := ⟨r.host, r.qtype, r.qclass, isDO r.extra, sub⟩
@@ -352,6 +482,53 @@ def serveCache (env : Env) (s : St) (r : Req) (u : Up) : St × Out :=
 def serve (env : Env) (s : St) (r : Req) (u : Up) : St × Out :=
   if ecsFromMsg r.extra = .bad then (s, ⟨.formerr, none, none, [], .none⟩)
   else serveCache env s r u
+
+/-! ## Overlapping requests
+
+`ServeDNS` runs concurrently for many requests.  Everything it computes before the upstream call
+(`cr`: question, DO bit, mapped subnet, opt-out flag; `ecsFam`; the two look-ups) is local to the
+call (`cacheReqPool`), the upstream call may take arbitrarily long, and the store (`mw.set`) happens
+afterwards, in whatever state the caches are by then.  `finish` is that second half: the request
+missed both caches at some earlier moment, now its upstream exchange completes. -/
+
+/-- `ServeDNS` from the upstream call on, for a request mapped to `sub` that missed both caches. -/
+def serveMiss (env : Env) (s : St) (r : Req) (sub : Pfx) (u : Up) : St × Out :=
+  if sub.fam ≠ ecsFamOf r then (s, errOut none)
+  else
+    let upReq := setECS r.extra sub false
+    if u.fails then (s, errOut (some upReq))
+    else if ecsFromMsg u.extra = .bad then (s, errOut (some upReq))
+    else
+      let it : Item := ⟨u.token, rmHop u.extra⟩
+      let s' : St :=
+        if !u.cacheable then s
+        else if dependent env r u then { s with ecs := putE s.ecs (ekey r sub) (some it) }
+        else { s with noecs := putN s.noecs (nkey r (zeroPfx (ecsFamOf r))) (some it) }
+      (s', ⟨.ok, some upReq, some u.token, respExtra r it.extra, .upstream⟩)
+
+/-- Completion of a request whose look-ups (in some earlier state) missed. -/
+def finish (env : Env) (s : St) (r : Req) (u : Up) : St × Out :=
+  if ecsFromMsg r.extra = .bad then (s, ⟨.formerr, none, none, [], .none⟩)
+  else
+    match mapped env r with
+    | none => (s, errOut none)
+    | some sub => serveMiss env s r sub u
+
+/-- Events of an execution with overlapping requests: a completion (of a request that started at
+any earlier moment), and the cache dropping an entry.  Look-ups do not change the state. -/
+inductive CEv
+  | fin (r : Req) (u : Up)
+  | dropN (k : NKey)
+  | dropE (k : EKey)
+
+def stepC (env : Env) (s : St) : CEv → St
+  | .fin r u => (finish env s r u).1
+  | .dropN k => { s with noecs := putN s.noecs k none }
+  | .dropE k => { s with ecs := putE s.ecs k none }
+
+def runC (env : Env) (s : St) : List CEv → St
+  | [] => s
+  | e :: es => runC env (stepC env s e) es
 
 /-- Events of a history: requests, and the cache dropping an entry (eviction, expiry, clear). -/
 inductive Ev
